@@ -1668,6 +1668,34 @@ func ruleNewMapArgs(p *Prog, r *Report) {
 					return true
 				}
 			}
+			// the pair itself: "key" is shorthand for "key:key"
+			if isPairLoad(fn, x) {
+				return true
+			}
+		case *ssa.Slice:
+			// the pair cut at its colon: pair[:i], pair[i+1:] with i = strings.Index(pair, ":")
+			if !isPairLoad(fn, x.X) {
+				return false
+			}
+			colon := func(v ssa.Value) bool {
+				c, ok := v.(*ssa.Call)
+				if !ok || !isCallTo(&c.Call, "strings.Index", "strings.IndexByte", "strings.LastIndex") || c.Call.Args[0] != x.X {
+					return false
+				}
+				if sv, ok := constString(c.Call.Args[1]); ok {
+					return sv == ":"
+				}
+				k, ok := constInt(c.Call.Args[1])
+				return ok && k == ':'
+			}
+			okLow := x.Low == nil
+			if bo, ok := x.Low.(*ssa.BinOp); ok && bo.Op == token.ADD && colon(bo.X) {
+				if k, isK := constInt(bo.Y); isK && k == 1 {
+					okLow = true
+				}
+			}
+			okHigh := x.High == nil || colon(x.High)
+			return okLow && okHigh && (x.Low != nil || x.High != nil)
 		case *ssa.Extract:
 			// a part handed back by an unexported helper that takes the pair apart: every non-constant value it returns
 			// in that position is itself such an element
@@ -1733,7 +1761,14 @@ func ruleNewMapArgs(p *Prog, r *Report) {
 		if isCallTo(&c.Call, "strings.Split") {
 			if sep, ok := constString(c.Call.Args[1]); ok && sep == "." {
 				checked++
-				if fromPair(c.Call.Args[0], map[ssa.Value]bool{}) {
+				subject := c.Call.Args[0]
+				// "ignore a trailing dot in the new key": TrimSuffix(x, ".") before the split is the documented tolerance itself
+				if tc, isC := subject.(*ssa.Call); isC && isCallTo(&tc.Call, "strings.TrimSuffix") {
+					if sv, isS := constString(tc.Call.Args[1]); isS && sv == "." {
+						subject = tc.Call.Args[0]
+					}
+				}
+				if fromPair(subject, map[ssa.Value]bool{}) {
 					r.OK(rule, n, "new path is the pair's new part as written", p.Pos(c.Pos()), "the new path is split from an unmodified element of the pair")
 				} else {
 					r.Bad(rule, n, "new path is the pair's new part as written", p.Pos(c.Pos()), "the new path is transformed before it is split into keys")
@@ -1907,7 +1942,7 @@ func ruleNewMapArgs(p *Prog, r *Report) {
 				// the empty pair is skipped as a whole: the edge opposite to the one that establishes "pair non-empty"
 				for si := 0; si < 2; si++ {
 					if x := nonEmptyGuard(guard{ifi.Cond, si == 0}); x != nil {
-						if _, isLoad := x.(*ssa.UnOp); isLoad && !fromPair(x, map[ssa.Value]bool{}) {
+						if _, isLoad := x.(*ssa.UnOp); isLoad && (isPairLoad(fn, x) || !fromPair(x, map[ssa.Value]bool{})) {
 							skip = 1 - si
 						}
 					}
@@ -2042,4 +2077,18 @@ func phiValueOnEdgeChain(v ssa.Value) ssa.Value {
 		return first
 	}
 	return v
+}
+
+// isPairLoad: v is an element of the function's variadic string parameter (one "old:new" pair as written by the caller).
+func isPairLoad(fn *ssa.Function, v ssa.Value) bool {
+	u, ok := v.(*ssa.UnOp)
+	if !ok || u.Op != token.MUL {
+		return false
+	}
+	ia, ok := u.X.(*ssa.IndexAddr)
+	if !ok {
+		return false
+	}
+	va := variadicParam(fn)
+	return va != nil && ia.X == ssa.Value(va) && isStringSlice(va.Type())
 }
